@@ -140,6 +140,8 @@ pub struct CombRec {
     pub items_out: u32,
     /// origin (child id) of every item yielded so far (merge fairness, C17)
     pub yields: Vec<u32>,
+    /// the combinator's final result was an error (try_join)
+    pub final_err: bool,
 }
 
 pub struct ChildRec {
@@ -401,6 +403,7 @@ impl World {
             home,
             items_out: 0,
             yields: Vec::new(),
+            final_err: false,
         });
         (self.combs.len() - 1) as u16
     }
@@ -565,9 +568,11 @@ impl World {
         self.ev(Ev::ParentWoken(k, gen, latest));
         // an inner combinator's (interposed) waker being invoked is the inner "child" of
         // the outer combinator invoking the waker it was handed
+        // (an old generation's waker is a stale waker of that child: it still counts as "a waker
+        // handed out for that slot was invoked" for C16, but creates no C01 obligation)
         let pc = self.combs[k as usize].parent_child;
-        if pc != NONE && latest {
-            self.child_waker_invoked(pc, true);
+        if pc != NONE {
+            self.child_waker_invoked(pc, latest);
         }
     }
 
@@ -583,11 +588,21 @@ impl World {
         let step = self.steps;
         self.ev(Ev::ChildPoll(id, step));
         // C03 (1): never polled after completion
+        let owner_fam = if owner != u16::MAX { Some((self.combs[owner as usize].fam, self.combs[owner as usize].home)) } else { None };
         if finished {
             self.violate(3, || format!("child {} (slot {}) polled again after it completed ({:?})", id, slot, last));
+            // family clauses that repeat this for particular children
+            if let Some((f, home)) = owner_fam {
+                if matches!(f, Fam::RaceOk | Fam::WaitFut | Fam::WaitStr | Fam::StrGroup) {
+                    self.violate(home, || format!("{:?}#{}: child at slot {} polled again after it completed ({:?})", f, owner, slot, last));
+                }
+            }
         }
         if removed {
             self.violate(3, || format!("child {} (slot {}) polled after it was removed from its group", id, slot));
+            if let Some((f, home)) = owner_fam {
+                self.violate(home, || format!("{:?}#{}: member with key slot {} polled after it was removed", f, owner, slot));
+            }
         }
         // C03 (2): only from inside the owner's poll
         if owner != u16::MAX {
@@ -606,6 +621,9 @@ impl World {
             let reusable = matches!(fam, Fam::FutGroup | Fam::StrGroup);
             if !alive || (klast == Last::Final && !reusable) {
                 self.violate(3, || format!("{:?}#{}: child at slot {} polled after the combinator produced its final result", fam, owner, slot));
+                if matches!(fam, Fam::TryJoin | Fam::Race | Fam::RaceOk) {
+                    self.violate(home, || format!("{:?}#{}: child at slot {} polled after the combinator had resolved", fam, owner, slot));
+                }
             }
             // C16: a child whose previous answer was Pending is re-polled only after a wake-up for its slot
             if selective && last == Ans::Pending && !fired {
